@@ -24,6 +24,8 @@ pub enum Ast {
     Opt(Box<Ast>),
     Exp(Box<Ast>, u32),
     Loop(Box<Ast>, u32, u32),
+    ConcatList(Vec<Ast>),
+    DiffList(Box<Ast>, Vec<Ast>),
 }
 
 pub fn good(w: &[u32]) -> bool {
@@ -91,6 +93,11 @@ pub fn matches(a: &Ast, w: &[u32]) -> bool {
         Ast::Opt(x) => w.is_empty() || matches(x, w),
         Ast::Exp(x, k) => in_powers(x, w, *k as u64, Some(*k as u64)),
         Ast::Loop(x, i, j) => in_powers(x, w, *i as u64, Some(*j as u64)),
+        Ast::ConcatList(l) => match l.split_first() {
+            None => w.is_empty(),
+            Some((h, t)) => (0..=w.len()).any(|i| matches(h, &w[..i]) && matches(&Ast::ConcatList(t.to_vec()), &w[i..])),
+        },
+        Ast::DiffList(x, l) => matches(x, w) && l.iter().all(|y| !matches(y, w)),
     }
 }
 
@@ -152,6 +159,15 @@ pub fn build(m: &mut ReManager, a: &Ast) -> RegLan {
             let a = build(m, x);
             m.smt_loop(a, *i, *j)
         }
+        Ast::ConcatList(l) => {
+            let v: Vec<RegLan> = l.iter().map(|x| build(m, x)).collect();
+            m.concat_list(v)
+        }
+        Ast::DiffList(x, l) => {
+            let a = build(m, x);
+            let v: Vec<RegLan> = l.iter().map(|x| build(m, x)).collect();
+            m.diff_list(a, v)
+        }
     }
 }
 
@@ -181,7 +197,16 @@ pub fn random_ast(ctx: &mut Ctx, depth: u32) -> Ast {
         return at[ctx.below(at.len() as u64) as usize].clone();
     }
     let sub = |ctx: &mut Ctx| Box::new(random_ast(ctx, depth - 1));
-    match ctx.below(12) {
+    match ctx.below(14) {
+        12 => {
+            let n = ctx.below(4);
+            Ast::ConcatList((0..n).map(|_| random_ast(ctx, depth - 1)).collect())
+        }
+        13 => {
+            let n = ctx.below(3);
+            let x = sub(ctx);
+            Ast::DiffList(x, (0..n).map(|_| random_ast(ctx, depth - 1)).collect())
+        }
         0 | 1 => Ast::Concat(sub(ctx), sub(ctx)),
         2 => {
             let n = 2 + ctx.below(2);
@@ -926,6 +951,8 @@ pub fn c10(ctx: &mut Ctx) -> Option<Failure> {
                     Ast::Opt(x) => sre::re_opt(bw(x)),
                     Ast::Exp(x, k) => sre::re_power(bw(x), *k),
                     Ast::Loop(x, i, j) => sre::re_loop(bw(x), *i, *j),
+                    Ast::ConcatList(l) => sre::re_concat_list(l.iter().map(bw).collect::<Vec<_>>()),
+                    Ast::DiffList(x, l) => sre::re_diff_list(bw(x), l.iter().map(bw).collect::<Vec<_>>()),
                 }
             }
             let e = bw(&ast);
